@@ -358,8 +358,13 @@ class Track:
                 fn = event.action
                 try:
                     fn_params = inspect.signature(fn).parameters
+                    #------------------------------------------------------------------------
+                    # A callback that takes **kwargs accepts any named argument.
+                    #------------------------------------------------------------------------
+                    accepts_any_name = any(param.kind == inspect.Parameter.VAR_KEYWORD
+                                           for param in fn_params.values())
                     for key in event.args.keys():
-                        if key not in fn_params:
+                        if key not in fn_params and not accepts_any_name:
                             raise Exception("Named argument not found in callback args: %s" % key)
                 except ValueError:
                     #------------------------------------------------------------------------
